@@ -41,12 +41,22 @@ def run(ctx, res):
 
 def hull(ctx, res, rule):
     P = ctx.lib
-    b = P.fn("formatter::format_block")
+    # the fold over the seam formatters lives in the helper `format_block` or, when that is inlined, in `format` itself
+    b = P.fn("formatter::format_block", required=False) or P.fn("code::formatter::format")
     fn = fshort(b)
-    folds = [n for n in T.nodes(b["tree"], "mcall") if n["name"] == "fold"]
+    fparam = [p_["pat"].get("name") for p_ in P.fn("code::formatter::format")["params"]][2] if b is not P.fn("formatter::format_block", required=False) else \
+        [p_["pat"].get("name") for p_ in b["params"]][2]
+    folds = [n for n in T.nodes(b["tree"], "mcall") if n["name"] == "fold" and T.render(n["recv"]) == "%s.iter()" % fparam]
     ok = False
     why = "fold over the formatters not found"
-    if len(folds) == 1 and T.render(folds[0]["recv"]) == "formatters.iter()" and T.render(folds[0]["args"][0]) == "pos..pos":
+    seed_ok = False
+    if len(folds) == 1:
+        sd = T.peel(folds[0]["args"][0])
+        if sd.get("k") == "struct" and {f["name"] for f in sd["fields"]} == {"start", "end"}:
+            a_, b_ = [T.render(T.peel_ref(f["e"])).lstrip("*") for f in sd["fields"]]
+            seed_ok = a_ == b_
+            seam_name = a_
+    if len(folds) == 1 and seed_ok:
         clo = T.peel(folds[0]["args"][1])
         I = A.Interp(P)
         I.lazy_locals = True
@@ -82,15 +92,30 @@ def hull(ctx, res, rule):
                 break
         # the formatter is asked about the seam position
         calls = [n for n in T.nodes(clo["body"], "mcall") if n["name"] == "format"]
-        if ok and not (len(calls) == 1 and [T.render(a) for a in calls[0]["args"]] == ["content", "pos"]):
+        if ok and not (len(calls) == 1 and len(calls[0]["args"]) == 2 and T.render(T.peel_ref(calls[0]["args"][1])).lstrip("*") == seam_name
+                       and T.render(calls[0]["args"][0]) == "content"):
             ok, why = False, "formatters are not called as f.format(content, pos)"
     if ok:
         res.holds(rule, fn, "hull-of-formatters", "fold(pos..pos, hull) over formatters.iter(), each asked at the seam")
     else:
         res.add(Finding(rule, fn, "hull-of-formatters", "the tidied range at a seam is not the hull of the seam formatters' ranges: " + why, loc=T.loc(b["tree"])))
-    bf = P.fn("chiritori::build_formatters")
-    outs = A.Interp(P).explore(lambda J: J.call_fn_body(bf, []))
-    got = sorted(x.name.split("::")[-1] for x in outs[0]["value"].items) if len(outs) == 1 and isinstance(outs[0]["value"], A.VecV) else []
+    # the seam formatters that `clean` hands to format(): the third argument of the call, whether the list is built by a
+    # helper (build_formatters) or in place
+    bf = P.fn("chiritori::build_formatters", required=False)
+    cl = P.fn("chiritori::clean")
+    got = []
+    try:
+        outs = A.Interp(P, inline=[bf["def_path"]] if bf else []).explore(lambda J: J.call_fn_body(cl, [A.Sym("content"), A.Sym("delimiters"), A.Sym("config")]))
+        lists = set()
+        for o in outs:
+            for e in o["effects"]:
+                if e[0] == "call" and e[1].split("::")[-1] == "format" and len(e[2]) == 4 and isinstance(e[2][2], A.VecV):
+                    lists.add(tuple(sorted(getattr(x, "name", A.show(x)).split("::")[-1] for x in e[2][2].items)))
+        if len(lists) == 1:
+            got = list(lists.pop())
+    except A.Cannot:
+        got = []
+    bf = bf or cl
     want = sorted(["IndentRemover", "EmptyLineRemover", "PrevLineBreakRemover", "NextLineBreakRemover"])
     if got == want:
         res.holds(rule, fshort(bf), "formatter-set", ", ".join(got))
